@@ -464,3 +464,172 @@ Proof.
   destruct (b64_decode_bytes (alphabet_of a) mode tr (utf8_encode s)) as [bs|] eqn:E; [|discriminate].
   destruct (utf8_decode bs) as [t'|] eqn:E2; [|discriminate]. intros [= <-]. eauto 8.
 Qed.
+
+(* ---- soundness: whatever the decoder accepts is the canonical unpadded encoding of its result,
+   followed by at most two "=" *)
+Lemma index_of_some b al i j :
+  index_of b al i = Some j ->
+  exists n, j = i + N.of_nat n /\ (n < length al)%nat /\ nth n al 0 = b.
+Proof.
+  revert i. induction al as [|x al IH]; intros i H; [discriminate|]. cbn [index_of] in H.
+  destruct (N.eqb_spec x b) as [->|Hne].
+  - injection H as <-. exists 0%nat. repeat split; [lia | cbn; lia].
+  - destruct (IH _ H) as (n & -> & Hn & Hb). exists (S n). repeat split; [lia | cbn; lia | exact Hb].
+Qed.
+
+Lemma unsym_some a s m : unsym (alphabet_of a) s = Some m -> m < 64 /\ s = sym (alphabet_of a) m.
+Proof.
+  intros H. apply index_of_some in H. destruct H as (n & -> & Hn & Hb).
+  assert (Hlen : length (alphabet_of a) = 64%nat) by (destruct a; reflexivity).
+  rewrite Hlen in Hn. split; [lia|]. unfold sym. rewrite N.add_0_l, Nat2N.id. now rewrite Hb.
+Qed.
+
+Definition symrel (al : list N) (s m : N) : Prop := unsym al s = Some m /\ s <> 61.
+
+Lemma scan_inv al off : forall l idx ms0 pads0 fp lst ms pads fp' lst',
+  suffix_scan al off l idx ms0 pads0 fp lst = inr (ms, pads, fp', lst') ->
+  exists syms k ms', l = syms ++ repeat 61 k /\ ms = ms0 ++ ms' /\ Forall2 (symrel al) syms ms' /\
+                     (0 < pads0 -> syms = []).
+Proof.
+  induction l as [|b t IH]; intros idx ms0 pads0 fp lst ms pads fp' lst' H.
+  - cbn in H. injection H as <- _ _ _. exists [], 0%nat, [].
+    split; [reflexivity|]. split; [now rewrite app_nil_r|]. split; [constructor | auto].
+  - cbn [suffix_scan] in H. unfold PAD_BYTE in H. destruct (N.eqb_spec b 61) as [->|Hb].
+    + destruct (idx <? 2); [discriminate|].
+      apply IH in H. destruct H as (syms & k & ms' & -> & -> & HF & Hp).
+      rewrite (Hp ltac:(lia)) in *. inversion HF; subst.
+      exists [], (S k), [].
+      split; [reflexivity|]. split; [reflexivity|]. split; [constructor | auto].
+    + destruct (N.ltb_spec 0 pads0) as [Hp|Hp]; [discriminate|].
+      destruct (unsym al b) as [m|] eqn:Em; [|discriminate].
+      apply IH in H. destruct H as (syms & k & ms' & -> & -> & HF & _).
+      exists (b :: syms), k, (m :: ms'). repeat split.
+      * now rewrite <- app_assoc.
+      * constructor; [split; assumption | exact HF].
+      * lia.
+Qed.
+
+Lemma F2_length {A B} (R : A -> B -> Prop) l l' : Forall2 R l l' -> length l = length l'.
+Proof. induction 1; cbn; congruence. Qed.
+
+Lemma nonzero_false x : nonzero x = false -> x = 0.
+Proof. unfold nonzero. intros H. apply negb_false_iff in H. now apply N.eqb_eq. Qed.
+
+Lemma suffix_sound a off l bs :
+  (length l <= 4)%nat ->
+  decode_suffix (alphabet_of a) Indifferent false off l = DOk bs ->
+  exists k, l = enc_full (alphabet_of a) false bs ++ repeat 61 k /\ bytes bs.
+Proof.
+  intros Hlen H.
+  destruct l as [|c t].
+  { cbn in H. injection H as <-. exists 0%nat. split; [reflexivity | constructor]. }
+  remember (c :: t) as l eqn:Hl.
+  destruct (suffix_scan (alphabet_of a) off l 0 [] 0 0 0) as [e|[[[ms pads] fp] lst]] eqn:E.
+  { unfold decode_suffix in H. rewrite E in H. discriminate. }
+  destruct (scan_inv _ _ _ _ _ _ _ _ _ _ _ _ E) as (syms & k & ms' & El & Ems & HF & _).
+  cbn [app] in Ems. subst ms.
+  assert (Hne : l <> []) by (subst l; discriminate).
+  pose proof (F2_length _ _ _ HF) as HL.
+  assert (Hs : (length syms <= 4)%nat).
+  { rewrite El in Hlen. rewrite app_length in Hlen. lia. }
+  destruct ms' as [|m0 [|m1 [|m2 [|m3 [|m4 ms'']]]]].
+  - unfold decode_suffix in H. rewrite E in H. subst l. cbn in H. discriminate.
+  - unfold decode_suffix in H. rewrite E in H. subst l. cbn in H. discriminate.
+  - rewrite (suffix_cases _ _ _ _ _ _ _ Hne E) in H.
+    destruct (nonzero (m1 mod 16 * 16)) eqn:Enz; [discriminate|]. injection H as <-.
+    apply nonzero_false in Enz.
+    inversion HF as [|s0 ? syms1 ? [U0 _] HF1]; subst. inversion HF1 as [|s1 ? syms2 ? [U1 _] HF2]; subst.
+    inversion HF2; subst.
+    apply unsym_some in U0, U1. destruct U0 as [B0 ->], U1 as [B1 ->].
+    exists k. split; [|repeat constructor; lia].
+    rewrite El. cbn [enc_full app].
+    replace ((m0 * 4 + m1 / 16) / 4) with m0 by lia.
+    replace ((m0 * 4 + m1 / 16) mod 4 * 16) with m1 by lia. reflexivity.
+  - rewrite (suffix_cases _ _ _ _ _ _ _ Hne E) in H.
+    destruct (nonzero (m2 mod 4 * 64)) eqn:Enz; [discriminate|]. injection H as <-.
+    apply nonzero_false in Enz.
+    inversion HF as [|s0 ? syms1 ? [U0 _] HF1]; subst. inversion HF1 as [|s1 ? syms2 ? [U1 _] HF2]; subst.
+    inversion HF2 as [|s2 ? syms3 ? [U2 _] HF3]; subst. inversion HF3; subst.
+    apply unsym_some in U0, U1, U2. destruct U0 as [B0 ->], U1 as [B1 ->], U2 as [B2 ->].
+    exists k. split; [|repeat constructor; lia].
+    rewrite El. cbn [enc_full app].
+    replace ((m0 * 4 + m1 / 16) / 4) with m0 by lia.
+    replace ((m0 * 4 + m1 / 16) mod 4 * 16 + (m1 mod 16 * 16 + m2 / 4) / 16) with m1 by lia.
+    replace ((m1 mod 16 * 16 + m2 / 4) mod 16 * 4) with m2 by lia. reflexivity.
+  - rewrite (suffix_cases _ _ _ _ _ _ _ Hne E) in H. injection H as <-.
+    inversion HF as [|s0 ? syms1 ? [U0 _] HF1]; subst. inversion HF1 as [|s1 ? syms2 ? [U1 _] HF2]; subst.
+    inversion HF2 as [|s2 ? syms3 ? [U2 _] HF3]; subst. inversion HF3 as [|s3 ? syms4 ? [U3 _] HF4]; subst.
+    inversion HF4; subst.
+    apply unsym_some in U0, U1, U2, U3.
+    destruct U0 as [B0 ->], U1 as [B1 ->], U2 as [B2 ->], U3 as [B3 ->].
+    exists k. split; [|unfold quad_bytes; repeat constructor; lia].
+    rewrite El. unfold quad_bytes. cbn [enc_full app].
+    replace ((m0 * 4 + m1 / 16) / 4) with m0 by lia.
+    replace ((m0 * 4 + m1 / 16) mod 4 * 16 + (m1 mod 16 * 16 + m2 / 4) / 16) with m1 by lia.
+    replace ((m1 mod 16 * 16 + m2 / 4) mod 16 * 4 + (m2 mod 4 * 64 + m3) / 64) with m2 by lia.
+    replace ((m2 mod 4 * 64 + m3) mod 64) with m3 by lia. reflexivity.
+  - exfalso. cbn [length] in HL. lia.
+Qed.
+
+Lemma chunk_sound a off x y z w bs :
+  decode_chunk_4 (alphabet_of a) off x y z w = DOk bs ->
+  exists b0 b1 b2, bs = [b0; b1; b2] /\ b0 < 256 /\ b1 < 256 /\ b2 < 256 /\
+    x = sym (alphabet_of a) (b0 / 4) /\ y = sym (alphabet_of a) (b0 mod 4 * 16 + b1 / 16) /\
+    z = sym (alphabet_of a) (b1 mod 16 * 4 + b2 / 64) /\ w = sym (alphabet_of a) (b2 mod 64).
+Proof.
+  unfold decode_chunk_4.
+  destruct (unsym (alphabet_of a) x) as [m0|] eqn:U0; [|discriminate].
+  destruct (unsym (alphabet_of a) y) as [m1|] eqn:U1; [|discriminate].
+  destruct (unsym (alphabet_of a) z) as [m2|] eqn:U2; [|discriminate].
+  destruct (unsym (alphabet_of a) w) as [m3|] eqn:U3; [|discriminate].
+  intros [= <-]. apply unsym_some in U0, U1, U2, U3.
+  destruct U0 as [B0 ->], U1 as [B1 ->], U2 as [B2 ->], U3 as [B3 ->].
+  unfold quad_bytes. eexists _, _, _. split; [reflexivity|].
+  split; [lia|]. split; [lia|]. split; [lia|].
+  replace ((m0 * 4 + m1 / 16) / 4) with m0 by lia.
+  replace ((m0 * 4 + m1 / 16) mod 4 * 16 + (m1 mod 16 * 16 + m2 / 4) / 16) with m1 by lia.
+  replace ((m1 mod 16 * 16 + m2 / 4) mod 16 * 4 + (m2 mod 4 * 64 + m3) / 64) with m2 by lia.
+  replace ((m2 mod 4 * 64 + m3) mod 64) with m3 by lia. auto.
+Qed.
+
+Lemma dq_sound a : forall l off bs,
+  decode_quads (alphabet_of a) Indifferent false off l = DOk bs ->
+  exists k, l = enc_full (alphabet_of a) false bs ++ repeat 61 k /\ bytes bs.
+Proof.
+  induction l as [l Hl | x y z w e r IH] using list_ind4; intros off bs H.
+  - rewrite dq_short in H by assumption. now apply suffix_sound in H.
+  - rewrite dq_step in H.
+    destruct (decode_chunk_4 (alphabet_of a) off x y z w) as [c3|] eqn:Ec; [|discriminate].
+    destruct (decode_quads (alphabet_of a) Indifferent false (off + 4) (e :: r)) as [rest|] eqn:Er; [|discriminate].
+    injection H as <-.
+    apply chunk_sound in Ec. destruct Ec as (b0 & b1 & b2 & -> & B0 & B1 & B2 & -> & -> & -> & ->).
+    destruct (IH _ _ Er) as (k & E & Hb). exists k. split.
+    + cbn [app enc_full]. now rewrite E.
+    + repeat constructor; assumption.
+Qed.
+
+Lemma b64_decode_sound a l bs :
+  b64_decode_bytes (alphabet_of a) Indifferent false l = DOk bs ->
+  exists k, l = enc_full (alphabet_of a) false bs ++ repeat 61 k /\ bytes bs.
+Proof.
+  unfold b64_decode_bytes.
+  match goal with |- context [if ?c then _ else _] => destruct c end; [discriminate|].
+  apply dq_sound.
+Qed.
+
+(* with the round trip: the accepted texts are exactly the unpadded encodings plus optional "=" *)
+Lemma b64_engine_unpadded a l :
+  b64_encode_engine (match a with ALPHA_STANDARD => STANDARD_NO_PAD | ALPHA_URL_SAFE => URL_SAFE_NO_PAD end) l
+  = enc_full (alphabet_of a) false l.
+Proof. rewrite encode_engine_full. destruct a; reflexivity. Qed.
+
+Definition no_pad_engine (a : b64_alpha) : b64_engine :=
+  match a with ALPHA_STANDARD => STANDARD_NO_PAD | ALPHA_URL_SAFE => URL_SAFE_NO_PAD end.
+
+Lemma b64_decode_sound_engine a l bs :
+  b64_decode_bytes (alphabet_of a) Indifferent false l = DOk bs ->
+  exists k, l = b64_encode_engine (no_pad_engine a) bs ++ repeat 61 k /\ bytes bs.
+Proof.
+  intros H. apply b64_decode_sound in H. destruct H as (k & E & Hb). exists k. split; [|exact Hb].
+  unfold no_pad_engine. now rewrite b64_engine_unpadded.
+Qed.
